@@ -987,3 +987,25 @@ M('C08', 'rf-gwauth12-old-set-rotates-without-bypass', GW, "            (false, 
 M('C09', 'rf-gwauth12-bypass-arm-enforces-wrongly', GW, "            (false, true) => auth::rotate_signers(&env, &signers, true),", "            (false, true) => auth::rotate_signers(&env, &signers, false),", 'C09.R1', base='gwauth-12')
 M('C03', 'rf-gwrotate9-duplicate-check-inverted', AUTH, "        installed_epoch(env, &new_signers_hash).is_none(),", "        installed_epoch(env, &new_signers_hash).is_some(),", 'C03.R2', base='gwrotate-9')
 M('C16', 'rf-example7-approval-ignored', 'contracts/axelar-gateway/src/executable.rs', "            return Ok(());\n        }\n\n        Err(ExecutableError::NotApproved)", "            return Ok(());\n        }\n\n        Ok(())", 'C16.R1', base='example-7')
+
+# ---------------- new entry points ----------------
+M('C02', 'new-entry-writes-status-directly', GW, _GWVIEW[0], '''#[contractimpl]
+impl AxelarGateway {
+    /// (added) marks a message executed
+    pub fn mark_executed(env: Env, source_chain: String, message_id: String) {
+        let key = MessageApprovalKey { source_chain, message_id };
+        env.storage().persistent().set(&DataKey::MessageApproval(key), &MessageApprovalValue::Executed);
+    }
+
+    /// Initialize the gateway
+''', 'C02.R1')
+M('C02', 'additive-wrapper-entry-around-validate', GW, _GWVIEW[0], '''#[contractimpl]
+impl AxelarGateway {
+    /// (added) struct-argument alias of validate_message
+    pub fn validate_approved_message(env: Env, message: Message) -> bool {
+        let Message { source_chain, message_id, source_address, contract_address, payload_hash } = message;
+        <Self as AxelarGatewayMessagingInterface>::validate_message(env, contract_address, source_chain, message_id, source_address, payload_hash)
+    }
+
+    /// Initialize the gateway
+''', equiv=True)
